@@ -362,6 +362,32 @@ func runC17(c *Ctx) {
 			c.Check("C17-R3", "compare-after-successful-derivation", cmp.Pos(), okD, "the digest is compared although key derivation failed or did not run")
 		}
 	}
+	// every caller of deriveKey hands it the passphrase it was itself given, unchanged (NewSecretKey and DeriveKey must
+	// agree on what "the passphrase" is: a creator that derives from the raw bytes and a verifier that trims them accept
+	// near misses and reject exact passphrases)
+	if dkf := snaclMethod(c, "C17-R3", "SecretKey", "deriveKey"); dkf != nil {
+		nCallers := 0
+		for _, cs := range p.callers(dkf) {
+			call, ok := cs.(*ssa.Call)
+			if !ok || len(call.Call.Args) < 2 {
+				continue
+			}
+			nCallers++
+			caller := call.Parent()
+			okArg := false
+			for _, o := range (&Slicer{P: p}).Origins(call.Call.Args[1]) {
+				if prm, ok := o.(*ssa.Parameter); ok && prm.Parent() == caller {
+					okArg = true
+				} else {
+					okArg = false
+					break
+				}
+			}
+			c.Check("C17-R3", "deriveKey-caller-passes-own-passphrase:"+caller.Name(), call.Pos(), okArg,
+				fnName(caller)+" derives the key from something other than the passphrase it was given (a trimmed / normalised / copied variant): creation and verification disagree on the passphrase")
+		}
+		c.Floor("C17-R3", "callers of SecretKey.deriveKey", nCallers, 2)
+	}
 	// the passphrase reaches the KDF unmodified
 	if dkf := snaclMethod(c, "C17-R3", "SecretKey", "deriveKey"); dkf != nil {
 		n := 0
